@@ -240,6 +240,10 @@ func (fsm *FSM) Snapshot() (raft.FSMSnapshot, error) {
 		log.Printf("compactionStart %s (overridden with -canary_compaction_start)\n", compactionStart.String())
 	}
 
+	// The horizon follows the configuration in force: folding a superseded
+	// Config message (in this or an earlier call) also runs the Config case of
+	// applyRobustMessage, which leaves that message's value behind.
+	fsm.restoredSessionExpiration()
 	exp := fsm.sessionExpiration()
 	if exp == 0 {
 		// in case the config does not set SessionExpiration at all
